@@ -261,6 +261,7 @@ def make_cases(pid, seed, n, start=0, profile_override=None):
     prof = dict(PROFILES.get(pid, {}))
     if profile_override:
         prof.update(profile_override)
+    prof.setdefault("multi_remaining", 0.06)     # run-time streams only: statically it is an error (RemainingIsNotLast)
     for i in range(start, start + n):
         c, g = gen_exec.gen_case("%s-%d" % (pid, seed), i, prof)
         # every stream alternates the store behaviour: answers exactly what was asked (zeros included), the
